@@ -32,6 +32,32 @@ def modules_of(text):
     return [it.name for it in items if it.kind == 'mod']
 
 
+def colliding_operations(rt):
+    """two operations whose names coincide after normalization (`mountain_height`, `MountainHeight`), with different variables:
+    whichever one a struct name / explicit name selects, OPERATION_NAME and Variables must belong to the same operation.
+    Returns a description of the inconsistency or None."""
+    doc = 'query mountain_height($a: Int) { x(a: $a) }\nquery MountainHeight($s: String) { x(s: $s) }\n'
+    own = {'mountain_height': ['a'], 'MountainHeight': ['s']}
+    for mode in ('derive', 'cli'):
+        for name in ('MountainHeight', 'mountain_height'):
+            for nz in ('rust', 'none'):
+                opts = {'mode': mode, 'normalization': nz, 'operation_name': name, 'struct_ident': name}
+                r = rt.gen(SCHEMA, doc, opts)
+                if r['status'] != 'ok':
+                    continue
+                for it in native.parse_generated(r['text']):
+                    if it.kind != 'mod':
+                        continue
+                    consts = {x.name: ''.join(x.rhs).strip('"') for x in it.items if x.kind == 'const'}
+                    vs = native.find_item(it.items, 'Variables', 'struct')
+                    fields = [f[0] for f in vs.fields] if vs else []
+                    opn = consts.get('OPERATION_NAME')
+                    if opn in own and fields != own[opn]:
+                        return (f'{mode} mode, normalization {nz}, requested `{name}`: module `{it.name}` sends operationName {opn!r} but its Variables has the fields {fields} '
+                                f'(those of the other operation) for the document `{doc.strip()}`')
+    return None
+
+
 def module_constants(rt, normalization):
     """generate two operations whose names are not UpperCamelCase and read OPERATION_NAME / QUERY back from the modules"""
     doc = 'query echo_message { x }\nquery mountainHeight { x }\n'
@@ -66,12 +92,21 @@ def main():
     if tier == 'thorough':
         cands += K.k_operation_selection(R, 3)
     cands += K.k_generated_module(R)
+    cands += K.k_module_root(R)
     replayed = 0
     seen = set()
     for c in cands:
         if c['kernel'] in seen:
             continue
-        if c['kernel'] == 'operation_selection':
+        if c['kernel'] == 'module_root':
+            seen.add(c['kernel'])
+            clash = colliding_operations(rt)
+            replayed += 1
+            if clash:
+                out.violation('operation-selection:colliding-names', c['what'] + ': ' + clash, dict(kind='collision', model=c))
+            else:
+                out.inconc(f'module-root counterexample did not reproduce natively: {c}')
+        elif c['kernel'] == 'operation_selection':
             ops = c['operations']
             if not all(NAME_RE.match(n or '') for n in ops) or (c['operation_name'] is not None and not NAME_RE.match(c['operation_name'])):
                 # the model's strings are not GraphQL names: try a canonical instance of the same shape
@@ -95,7 +130,13 @@ def main():
                 seen.add(c['kernel'])
                 out.violation('operation-selection', c['what'] + ': ' + desc, dict(kind='solver', model=c, schema=SCHEMA, query=doc, options=opts))
             else:
-                out.inconc(f'operation-selection counterexample did not reproduce natively: {desc} (model {c})')
+                # names that coincide only after normalization are the other way such a model can be realised
+                clash = colliding_operations(rt)
+                replayed += 1
+                if clash:
+                    out.violation('operation-selection:colliding-names', c['what'] + ': ' + clash, dict(kind='collision', model=c))
+                else:
+                    out.inconc(f'operation-selection counterexample did not reproduce natively: {desc} (model {c})')
                 seen.add(c['kernel'])
         else:
             seen.add(c['kernel'])
@@ -126,6 +167,10 @@ def main():
         replayed += 1
         if bad and 'module-constants' not in [v[0] for v in out.violations]:
             out.violation('native:module-constants', bad, dict(kind='native', normalization=nz))
+    clash = colliding_operations(rt)
+    replayed += 1
+    if clash and not any(v[0].startswith('operation-selection') for v in out.violations):
+        out.violation('native:colliding-names', clash, dict(kind='collision'))
     # derive mode on a struct name that matches nothing: must fail and name the operations
     r = rt.gen(SCHEMA, DOC, {'mode': 'derive', 'operation_name': 'Third', 'struct_ident': 'Third'})
     replayed += 1
@@ -149,6 +194,15 @@ def main():
 
 def replay(path):
     p = json.load(open(path))
+    if p.get('kind') == 'collision':
+        clash = colliding_operations(native.ReplayTool(vc.scratch(PROP + 'r')))
+        print(clash or 'consistent')
+        return 1 if clash else 0
+    if p.get('kind') == 'native' and 'options' not in p:
+        rt = native.ReplayTool(vc.scratch(PROP + 'r'))
+        bad = [b for b in (module_constants(rt, 'none'), module_constants(rt, 'rust')) if b]
+        print(bad or 'module constants ok')
+        return 1 if bad else 0
     if 'options' in p:
         sc = vc.scratch(PROP + 'r')
         r = native.ReplayTool(sc).gen(p['schema'], p['query'], p['options'])
